@@ -400,11 +400,12 @@ PROPS = {
         'assumptions': [
             'SHA-256 uninterpreted (same symbol in code and spec)',
             'C01/C02/C08/C15/C17 contracts (re-verified inside this check) used at call sites',
-            'set membership/insertion of txids and outpoints: abstract set model (membership of an inserted key is '
-            'true, nothing else is known) - the no-duplicate clauses are therefore only checked by the bounded units',
+            'sets of txids / outpoints: abstract set model (keys = serialisations in insertion order; membership = some '
+            'index holds the key)',
             'time.time() is not called (cur_time is given); MAX_BLOCK_SIGOPS = 20000.0 compared as the integer 20000',
         ],
-        'level_text': 'PROVED for all inputs: MoneyRange; CheckTransaction raises only CheckTransactionError and returns '
+        'level_text': 'PROVED for all inputs: MoneyRange; CheckTransaction raises only CheckTransactionError, an accepted transaction '
+                      'spends no outpoint twice (any number of inputs), and it returns '
                       'normally exactly when the transaction rule without the no-double-spend clause holds (non-empty, '
                       'stripped size, every value and running total in range, coinbase script 2..100 or no null prevout); '
                       'GetLegacySigOpCount never raises and equals the reference total over all scripts; CheckBlock '
@@ -412,9 +413,9 @@ PROPS = {
                       'and every accepted block has: timestamp <= cur_time + 7200, PoW rule if requested, non-empty, '
                       'stripped size <= 1,000,000 and weight <= 4,000,000, exactly its first transaction a coinbase, '
                       'EVERY transaction incl. the coinbase passing the transaction rule, total legacy sigops incl. the '
-                      'coinbase <= 20,000, declared merkle root = reference root if requested. '
-                      'BOUNDED (not proved): the exact accept/reject equivalence of CheckTransaction incl. duplicate '
-                      'inputs and of CheckBlock incl. txid uniqueness and the BIP141 witness commitment, against '
+                      'coinbase <= 20,000, no txid occurring twice (any number of transactions), declared merkle root = reference root if requested. '
+                      'BOUNDED (not proved): that a transaction without duplicate inputs / a block without duplicate txids is '
+                      'never refused for that reason (converse direction), and the BIP141 witness commitment clause, against '
                       'executable references on generated valid objects and a catalogue of single-rule violations '
                       '(400 resp. 800 cases per chain in quick, x10 in thorough).',
         'level_note': 'trusted: pyvc, z3/cvc5, hash functions uninterpreted, abstract set model, specs/checks.py; '
